@@ -532,43 +532,24 @@ Lemma ctx_init_Rg w gl (s : store) g root :
 Proof.
   intros Hf Hm Hg Hroot.
   assert (H4 : n_caller <= length s) by (eapply firstn_len_ge; [exact Hf|reflexivity]).
-  unfold ctx_init, alloc. destruct (Nat.eqb (mlen s g) 0) eqn:E.
-  - apply Nat.eqb_eq in E. exists (@nil addr).
-    cbn [store_of scope locals_a counters_a globals_r root_r a_blocks a_locals a_counters map app empty_astate].
-    assert (G0 : forall k, mget (((s ++ [[]]) ++ [[]]) ++ [[]]) (RDict (length s)) k = gl k).
-    { intro k. cbn [mget]. rewrite !read_app_lt by len.
-      rewrite read_app_new. simpl. rewrite <- Hg. symmetry. apply mlen_zero_none. exact E. }
-    split; [reflexivity|]. split; [reflexivity|].
-    split. { rewrite read_app_lt by len. apply read_app_new. }
-    split. { apply read_app_new. }
-    split. { rewrite !firstn_app_le by len. exact Hf. }
-    split; [exact G0|].
-    split. { simpl. intros x [<-|[]]. len. }
-    split; [len|]. split; [len|]. split; [len|]. split; [constructor|].
-    destruct root as [r|].
-    + destruct Hroot as [Hr1 Hr2]. split.
-      * intro k. rewrite <- Hr2. apply mget_frame. intros x Hx. specialize (Hr1 x Hx).
-        rewrite !read_app_lt by len. reflexivity.
-      * intros x Hx. specialize (Hr1 x Hx). len.
-    + split; [intro k; rewrite G0; apply Hroot|]. simpl. intros x [<-|[]]. len.
-  - exists (@nil addr).
-    cbn [store_of scope locals_a counters_a globals_r root_r a_blocks a_locals a_counters map app empty_astate].
-    assert (G0 : forall k, mget ((s ++ [[]]) ++ [[]]) g k = gl k).
-    { intro k. rewrite <- Hg. apply mget_frame. intros x Hx. specialize (Hm x Hx).
-      rewrite !read_app_lt by len. reflexivity. }
-    split; [reflexivity|]. split; [reflexivity|].
-    split. { rewrite read_app_lt by len. apply read_app_new. }
-    split. { apply read_app_new. }
-    split. { rewrite !firstn_app_le by len. exact Hf. }
-    split; [exact G0|].
-    split; [exact Hm|].
-    split; [len|]. split; [len|]. split; [len|]. split; [constructor|].
-    destruct root as [r|].
-    + destruct Hroot as [Hr1 Hr2]. split.
-      * intro k. rewrite <- Hr2. apply mget_frame. intros x Hx. specialize (Hr1 x Hx).
-        rewrite !read_app_lt by len. reflexivity.
-      * intros x Hx. specialize (Hr1 x Hx). len.
-    + split; [intro k; rewrite G0; apply Hroot|]. exact Hm.
+  unfold ctx_init, alloc. exists (@nil addr).
+  cbn [store_of scope locals_a counters_a globals_r root_r a_blocks a_locals a_counters map app empty_astate].
+  assert (G0 : forall k, mget ((s ++ [[]]) ++ [[]]) g k = gl k).
+  { intro k. rewrite <- Hg. apply mget_frame. intros x Hx. specialize (Hm x Hx).
+    rewrite !read_app_lt by len. reflexivity. }
+  split; [reflexivity|]. split; [reflexivity|].
+  split. { rewrite read_app_lt by len. apply read_app_new. }
+  split. { apply read_app_new. }
+  split. { rewrite !firstn_app_le by len. exact Hf. }
+  split; [exact G0|].
+  split; [exact Hm|].
+  split; [len|]. split; [len|]. split; [len|]. split; [constructor|].
+  destruct root as [r|].
+  - destruct Hroot as [Hr1 Hr2]. split.
+    + intro k. rewrite <- Hr2. apply mget_frame. intros x Hx. specialize (Hr1 x Hx).
+      rewrite !read_app_lt by len. reflexivity.
+    + intros x Hx. specialize (Hr1 x Hx). len.
+  - split; [intro k; rewrite G0; apply Hroot|]. exact Hm.
 Qed.
 
 Lemma glookup_m_eq w k : NoDup (keys (w_tg w)) -> glookup_m w k = glookup w k.
